@@ -12,6 +12,7 @@
                 results for strcasecmp(a,b), strncasecmp(a,b,n) n = 0..3,
                 strcasestr(a,b), rtrim(a) and snprintf("%s", a) into every
                 buffer size; StrLaws are the laws of the reference.
+   Mode "trim": one word over {v SP TAB VT FF CR LF}: rtrim removes blanks and tabs only.
    Mode "cmp" : binding V for evutil_sockaddr_cmp.  The property fixes that the
                 comparison is a consistent total order that treats equal
                 addresses (and ports, when requested) as equal - not which
@@ -92,10 +93,12 @@ StrCaseStr(s, f) ==
 RECURSIVE Rtrim(_)
 Rtrim(s) == IF s # <<>> /\ s[Len(s)] \in {32, 9} THEN Rtrim(Take(s, Len(s) - 1)) ELSE s
 
-Alpha == <<97, 65, 122, 90, 64, 91, 96, 123, 48, 32, 9, 128, 255>>
+(* mode "trim": one word over v SP TAB VT FF CR LF - only blanks and tabs are linear white space *)
+Alpha == IF Mode = "trim" THEN <<118, 32, 9, 11, 12, 13, 10>>
+         ELSE <<97, 65, 122, 90, 64, 91, 96, 123, 48, 32, 9, 128, 255>>
 
 StrLaws ==
-  Mode = "str" =>
+  Mode \in {"str", "trim"} =>
     /\ (StrCaseCmp(a, b) = 0 <=> Fold(a) = Fold(b))
     /\ StrCaseCmp(a, a) = 0
     /\ (StrCaseCmp(a, b) \in {-1, 1} => StrCaseCmp(b, a) = -StrCaseCmp(a, b))
@@ -105,6 +108,7 @@ StrLaws ==
     /\ StrCaseStr(a, <<>>) = 0
     /\ Rtrim(Rtrim(a)) = Rtrim(a) /\ (Rtrim(a) = <<>> \/ Rtrim(a)[Len(Rtrim(a))] \notin {32, 9})
     /\ Rtrim(a) = Take(a, Len(Rtrim(a)))
+    /\ \A i \in (Len(Rtrim(a)) + 1)..Len(a) : a[i] \in {32, 9}        \* nothing but SP / HTAB is removed
 
 StrRec == [a |-> a, b |-> b,
            cmp |-> StrCaseCmp(a, b),
@@ -119,6 +123,9 @@ V4(x, y, z, u, p) == [f |-> 4, addr |-> <<x, y, z, u>>, port |-> p]
 V6(hi, lo, p) == [f |-> 6, addr |-> <<hi>> \o [i \in 1..14 |-> 0] \o <<lo>>, port |-> p]
 Addrs == << V4(0, 0, 0, 0, 0), V4(1, 2, 3, 4, 80), V4(1, 2, 3, 4, 81), V4(1, 2, 3, 4, 20480), V4(4, 3, 2, 1, 80),
             V4(128, 0, 0, 1, 80), V4(255, 255, 255, 255, 65535), V4(1, 2, 3, 4, 80),
+            (* last / first octets 1, 100, 200: raw 32-bit values more than 2^31 apart on either byte order *)
+            V4(10, 0, 0, 1, 80), V4(10, 0, 0, 100, 80), V4(10, 0, 0, 200, 80),
+            V4(1, 0, 0, 10, 80), V4(100, 0, 0, 10, 80), V4(200, 0, 0, 10, 80),
             V6(0, 0, 0), V6(0, 1, 80), V6(0, 1, 443), V6(1, 0, 80), V6(128, 0, 80), V6(255, 255, 65535), V6(0, 1, 80) >>
 N == Len(Addrs)
 SameAddr(i, j, withPort) == /\ Addrs[i].f = Addrs[j].f /\ Addrs[i].addr = Addrs[j].addr
@@ -136,14 +143,14 @@ TotalOrder == (Mode = "cmp" /\ a = <<>>) => (TotalOrderOn(Dump.m0, FALSE) /\ Tot
 
 -----------------------------------------------------------------------------
 Init == a = <<>> /\ b = <<>>
-Grow == /\ Mode = "str"
+Grow == /\ Mode \in {"str", "trim"}
         /\ \/ (Len(a) < MaxA /\ b = <<>> /\ \E i \in 1..Len(Alpha) : a' = Append(a, Alpha[i]) /\ b' = b)
            \/ (Len(b) < MaxB /\ \E i \in 1..Len(Alpha) : b' = Append(b, Alpha[i]) /\ a' = a)
 Next == Grow
 Spec == Init /\ [][Next]_vars
 
 Emit == CASE Mode = "tab"   -> PrintT(ToJson(TabRec))
-          [] Mode = "str"   -> PrintT(ToJson(StrRec))
+          [] Mode \in {"str", "trim"} -> PrintT(ToJson(StrRec))
           [] Mode = "addrs" -> PrintT(ToJson(Addrs))
           [] OTHER          -> TRUE
 =============================================================================
